@@ -390,3 +390,44 @@ func VC_C04_matches() {
 	}
 	verifReached("C04.matches")
 }
+
+var vCallPN = [3]string{"p0", "p1", "p2"}
+var vCallQN = [3]string{"q0", "q1", "q2"}
+
+// VC_C04_call_history: two conditions (which may overlap) and a default; three calls
+// with independent arguments: every call follows the first-registered-matching rule,
+// whatever the calls before it matched.
+func VC_C04_call_history() {
+	vEnv()
+	d := verifInt("default")
+	w, err := CreateWhen(nil, vF2, nil, []interface{}{d}, false)
+	verifAssert(err == nil, "C04.history.create-ok")
+	// condition i: (x_i or Any, y_i or Any)
+	var cx, cy [2]int
+	var ax, ay [2]bool
+	var res [2]int
+	for i := 0; i < 2; i++ {
+		cx[i], cy[i] = verifInt(vXN[i]), verifInt(vYN[i])
+		ax[i], ay[i] = verifBool(vXN[i]+".any"), verifBool(vYN[i]+".any")
+		res[i] = verifInt(vRN[i])
+		var e1, e2 interface{} = cx[i], cy[i]
+		if ax[i] {
+			e1 = arg.Any()
+		}
+		if ay[i] {
+			e2 = arg.Any()
+		}
+		w.When(e1, e2).Return(res[i])
+	}
+	f := vStubFunc(w).(func(int, int) int)
+	for c := 0; c < 3; c++ {
+		p, q := verifInt(vCallPN[c]), verifInt(vCallQN[c])
+		got, panicked := vCall2(f, p, q)
+		verifAssert(!panicked, "C04.history.no-panic")
+		m0 := verifAnd(verifOr(ax[0], cx[0] == p), verifOr(ay[0], cy[0] == q))
+		m1 := verifAnd(verifOr(ax[1], cx[1] == p), verifOr(ay[1], cy[1] == q))
+		want := verifIte(m0, uint64(res[0]), verifIte(m1, uint64(res[1]), uint64(d)))
+		verifAssert(uint64(got) == want, "C04.history.first-match-whatever-was-called-before")
+	}
+	verifReached("C04.history")
+}
